@@ -68,6 +68,8 @@ class Family:
             self.keys, self.init = ["x"], {"x": jnp.array([0.2, -0.4], jnp.float32)}
         elif name == "gamma_mh":
             self.keys, self.init = ["x"], {"x": jnp.array([1.2, 0.7], jnp.float32)}
+        elif name == "gamma_cached":   # the state caches a derived quantity (m = sum x) that the user's proposal keeps in step
+            self.keys, self.init = ["x"], {"x": jnp.array([1.2, 0.7], jnp.float32), "m": jnp.float32(1.9)}
         elif name == "coupled":      # regression coefficients (IWLS) given a log-scale moved by another kernel
             self.keys, self.init = ["beta"], {"beta": jnp.array([0.1, 0.2], jnp.float32), "ls": jnp.array(0.1, jnp.float32)}
             self.other = ["ls"]
@@ -107,6 +109,8 @@ class Family:
         if n == "gamma_mh":
             x = s["x"]
             return jnp.sum(2.0 * jnp.log(x) - 1.5 * x)
+        if n == "gamma_cached":
+            return jnp.sum(2.0 * jnp.log(s["x"])) - 1.5 * s["m"]
         if n == "concentrated":
             return -0.5 * jnp.sum((s["x"] / 0.05) ** 2)
         if n == "gamma_rw":
@@ -175,7 +179,7 @@ class Family:
             F[:2, :2] = P2
             F[2, 2] = np.exp(z) + 1 / SIG2
             return lp, g, F
-        if n == "gamma_mh":
+        if n in ("gamma_mh", "gamma_cached"):
             return float(np.sum(2.0 * np.log(f) - 1.5 * f)), None, None
         raise KeyError(n)
 
@@ -199,6 +203,8 @@ def run(kernel="iwls", family="gauss2", step=0.7, chains=2, seed=0, n_iter=40):
         def prop(key, ms, s):
             x = ms["x"]
             new = x * jnp.exp(s * jax.random.normal(key, x.shape))
+            if family == "gamma_cached":     # the proposal carries the cached quantity along (not a position key)
+                return gs.MHProposal({"x": new, "m": jnp.sum(new)}, jnp.sum(jnp.log(new) - jnp.log(x)))
             return gs.MHProposal({"x": new}, jnp.sum(jnp.log(new) - jnp.log(x)))
         inner = gs.MHKernel(fam.keys, prop, initial_step_size=step)
 
@@ -315,6 +321,7 @@ def jobs(quick=True):
             js.append(dict(kernel="rw", family=f, step=s, seed=len(js)))
     for s in steps:
         js.append(dict(kernel="mh", family="gamma_mh", step=0.5 * s, seed=len(js)))
+    js.append(dict(kernel="mh", family="gamma_cached", step=0.4, seed=len(js)))
     # log ratios far beyond the overflow of exp, NaN log-densities outside the support, a block of 40 coefficients
     js.append(dict(kernel="rw", family="concentrated", step=0.7, seed=len(js)))
     js.append(dict(kernel="rw", family="gamma_rw", step=0.9, seed=len(js)))
